@@ -117,7 +117,7 @@ fn replay_state<T: LabelType + Default>(hist: &[Op], universe: &[usize], mk: &dy
     lines
 }
 
-fn random_walk<T: LabelType + Default>(seed: u64, nlabels: usize, len: usize, with_init: bool, mk: &dyn Fn(usize) -> T, un: &dyn Fn(&T) -> usize, ty: &str) -> Vec<String> {
+fn random_walk<T: LabelType + Default + 'static>(seed: u64, nlabels: usize, len: usize, with_init: bool, mk: &dyn Fn(usize) -> T, un: &dyn Fn(&T) -> usize, ty: &str, rt: bool) -> Vec<String> {
     let mut rng = StdRng::seed_from_u64(seed);
     let universe: Vec<usize> = (1..=nlabels).collect();
     let mut init: Vec<usize> = vec![];
@@ -153,6 +153,12 @@ fn random_walk<T: LabelType + Default>(seed: u64, nlabels: usize, len: usize, wi
         }
         let res = apply(&mut af, &o, mk);
         lines.push(json!({"ev": "u", "o": op_json(&o), "res": res, "proj": proj(&af, &universe, nids + 1, mk, un)}).to_string());
+        if rt && rng.gen_bool(0.15) {
+            // C14: written in Aspartix format and read back
+            if let Some(saf) = (&af as &dyn std::any::Any).downcast_ref::<AAFramework<String>>() {
+                lines.push(json!({"ev": "rt", "back": crate::io::roundtrip(saf)}).to_string());
+            }
+        }
     }
     lines
 }
@@ -164,6 +170,7 @@ pub fn cmd_store(a: &Args) {
     let seed = a.num("seed", 1) as u64;
     let mk_u = |x: usize| x;
     let un_u = |x: &usize| *x;
+    let rt = a.get("rt", "no") == "yes";
     let mk_s = |x: usize| format!("a{}", x);
     let un_s = |x: &String| x[1..].parse::<usize>().unwrap();
     let mut all: Vec<String> = vec![];
@@ -191,7 +198,7 @@ pub fn cmd_store(a: &Args) {
             util::install_quiet_panic_hook();
             let s = seed.wrapping_mul(7919).wrapping_add(*i as u64);
             let nl = 3 + (*i % 4);
-            if i % 2 == 0 { random_walk::<usize>(s, nl, len, i % 4 == 0, &mk_u, &un_u, "usize") } else { random_walk::<String>(s, nl, len, i % 4 == 1, &mk_s, &un_s, "string") }
+            if i % 2 == 0 { random_walk::<usize>(s, nl, len, i % 4 == 0, &mk_u, &un_u, "usize", false) } else { random_walk::<String>(s, nl, len, i % 4 == 1, &mk_s, &un_s, "string", rt) }
         });
         all.extend(res.into_iter().flatten());
     }
